@@ -569,6 +569,17 @@ def crafted_server_histories(seed, n):
                 if 0 <= c < len(full):
                     g.emit_dgram(s.addr, full[:c])
                     g.tick()
+        # a packet with a destination, then packets too short to have one (upstream through this session, and on the tun device):
+        # what the longer packet left in the uncompress / read buffers must not route the short ones
+        own = g.tun_ips[uid] if uid < len(g.tun_ips) else g.tun_ips[0]
+        for short_n in rng.sample([1, 4, 10, 19, 20, 23], 3):
+            ip = bytearray(rng.randrange(256) for _ in range(40))
+            ip[20:24] = own.to_bytes(4, 'big')
+            g.emit_dgram(s.addr, rh + bytes([0x20 | uid]) + bytes([0x5A]) + bytes(ip))
+            g.emit_dgram(s.addr, rh + bytes([0x20 | uid]) + bytes([0x5A]) + bytes(rng.randrange(256) for _ in range(short_n)))
+            g.tun(dst_ip=own, n=60)
+            g.tun(n=short_n)
+            g.tick()
         out.append('H ' + g.cfg() + ' ; ' + ' ; '.join(g.events))
     return out
 
